@@ -564,10 +564,13 @@ def _c03():
              ("reduce_split", "parallel_reduce: the splitting constructor throws", [1, 2]), ("foreach", "parallel_for_each with feeder", [1, 4, 9]),
              ("invoke", "parallel_invoke of three functions", [1, 6]), ("pipeline", "3-stage pipeline, 3 items, 2 tokens", [0, 1, 2, 16]),
              ("graph", "function_node graph, wait_for_all, reset and reuse", [0, 1, 2, 4]), ("execute", "task_arena::execute of a nested one-slot arena", [1, 2]),
+             ("pipeline_obj", "3-stage pipeline whose items travel in library-allocated tokens (4 items, 3 tokens): every item is destroyed exactly once also when a filter throws", [0, 2, 4, 8, 32, 64]),
              ("same_arena", "bodies that call task_arena::execute on the arena they already run in (directly / through attach) and throw afterwards; then a parallel_for whose bodies do the same", [0, 1, 2, 4, 3])]
     for k, what, masks in progs:
         for m in masks:
-            L.append(leg("%s-m%d" % (k, m), "c03_rt", (2, 3) if k not in ("graph", "pipeline", "foreach") else (1, 2), {"kind": k, "mask": m}, what="%s; throwing invocations mask %d" % (what, m)))
+            L.append(leg("%s-m%d" % (k, m), "c03_rt", (2, 3) if k not in ("graph", "pipeline", "pipeline_obj", "foreach") else (1, 2), {"kind": k, "mask": m}, what="%s; throwing invocations mask %d" % (what, m)))
+    for ct in (1, 2, 3, 5):
+        L.append(leg("foreach_input-c%d" % ct, "c03_rt", (1, 2), {"kind": "foreach_input", "mask": 0, "copythrow": ct}, what="parallel_for_each over input iterators (items are copied into blocks by the library): the %d. item copy throws; the call must rethrow it and destroy every copy" % ct))
     L.append(leg("same_arena-m0-pfor", "c03_rt", (2, 3), {"kind": "same_arena", "mask": 0, "mask2": 2}, what="same-arena execute inside parallel_for bodies, the second body throws"))
     return L
 PROPS["C03"] = {
